@@ -163,6 +163,28 @@ func main() {
 			obls = append(obls, r.Obls...)
 		}
 	}
+	// function-type contracts: every function of the module that is converted to
+	// the named function type must satisfy the contract
+	for _, tn := range sortedKeys(SS.FuncTypes) {
+		con := SS.FuncTypes[tn]
+		if !serves(con, *prop) {
+			continue
+		}
+		con.Iface = true // same treatment as interface-method contracts (own loop invariants)
+		for _, fn := range funcsOfType(P, tn) {
+			if *only != "" && !strings.Contains(canonName(fn), *only) {
+				continue
+			}
+			short := tn
+			if i := strings.LastIndex(tn, "."); i >= 0 {
+				short = tn[i+1:]
+			}
+			r := verifyFunction(P, SS, G, fn, con, "@as:"+short)
+			results = append(results, r)
+			r.Obls = filterProps(r.Obls, *prop)
+			obls = append(obls, r.Obls...)
+		}
+	}
 	genTime := time.Since(start)
 	solveAll(obls, *out, timeout, seed, *jobs)
 	if *mode == "check" {
